@@ -43,6 +43,7 @@ import (
 
 	eio "github.com/karagenc/socket.io-go/engine.io"
 	"github.com/karagenc/socket.io-go/engine.io/parser"
+	"github.com/karagenc/socket.io-go/engine.io/transport/polling"
 	"nhooyr.io/websocket"
 
 	"verifharness/vk"
@@ -838,6 +839,48 @@ func upDecodePacket(part string) int {
 	return -3
 }
 
+// upHold parks every goroutine that reaches the repo's existing yield point "pollqueue-window"
+// (pollQueue.poll: after the first, empty, get() and before the wait) while armed.  The handler is
+// process-wide, so schedules that use it run one at a time (-par 1).
+type upHolder struct {
+	mu    sync.Mutex
+	armed bool
+	gate  chan struct{}
+}
+
+var upHold = &upHolder{}
+
+func (h *upHolder) install() {
+	polling.VerifSetYieldHandler(func(point string) {
+		if point != "pollqueue-window" {
+			return
+		}
+		h.mu.Lock()
+		armed, gate := h.armed, h.gate
+		h.mu.Unlock()
+		if armed {
+			<-gate
+		}
+	})
+}
+
+func (h *upHolder) arm() {
+	h.mu.Lock()
+	if !h.armed {
+		h.armed, h.gate = true, make(chan struct{})
+	}
+	h.mu.Unlock()
+}
+
+func (h *upHolder) release() {
+	h.mu.Lock()
+	if h.armed {
+		h.armed = false
+		close(h.gate)
+	}
+	h.mu.Unlock()
+}
+
 // exp (optional): per step "hasPoll,nWs,nSrecv,onWs" as predicted by the model; the rig then waits (bounded)
 // until at least that much has been observed, plus a short quiet time, instead of guessing a settle time.
 func (rig *upRig) runForced(sched string, exp [][4]int, settle time.Duration) upForcedRow {
@@ -866,6 +909,7 @@ func (rig *upRig) runForced(sched string, exp [][4]int, settle time.Duration) up
 	}
 	srec := v.(*upServerRec)
 	defer srec.sock.Close()
+	defer upHold.release()
 
 	var mu sync.Mutex
 	var last time.Time
@@ -886,9 +930,14 @@ func (rig *upRig) runForced(sched string, exp [][4]int, settle time.Duration) up
 			p, _ := parser.NewPacket(parser.PacketTypeMessage, false, []byte(strconv.Itoa(sSent)))
 			sSent++
 			srec.sock.Send(p)
-		case 'g':
+		case 'r': // release the GET held at the yield point
+			upHold.release()
+		case 'g', 'h':
 			if pollBusy { // one GET at a time (the model skips it too)
 				break
+			}
+			if a == 'h' {
+				upHold.arm()
 			}
 			pollBusy = true
 			go func() {
@@ -1026,6 +1075,7 @@ func upForcedMain(schedFile string, settleMs int, par int, out *vk.Out) error {
 		return err
 	}
 	defer rig.close()
+	upHold.install()
 	sem := make(chan struct{}, par)
 	var wg sync.WaitGroup
 	for _, line := range strings.Split(string(data), "\n") {
